@@ -130,7 +130,8 @@ def world(case):
         # half of the worlds use mappings that do not name every axis (the Grid's defaults fill in)
         W["boundary"] = {"X": "extend"} if case["periodic"] else {"X": "extend", "Y": "fill"}
         W["fill"] = {"Y": -1.0} if case["periodic"] else {"X": 1.5, "Y": -1.0}
-        W["to"] = {"X": "left", "Y": "left"}
+        # ... and a `to` mapping that leaves an axis to its default shift (None)
+        W["to"] = {"X": None, "Y": "left"} if case["periodic"] else {"X": "left", "Y": "left"}
         W["bw"] = {"X": (1, 2), "Y": (0, 1)}
         W["mw"] = ("X", "Y")
         W["axes"] = ["X", "Y"]
